@@ -204,7 +204,7 @@ func c07P1(r *core.R) {
 		switch x := n.(type) {
 		case *ast.CallExpr:
 			if isMethod(callee(info, x), "sync.WaitGroup", "Add") {
-				if sel, ok := x.Fun.(*ast.SelectorExpr); ok && fieldOf(info, sel.X) == m.wgField && len(x.Args) == 1 {
+				if sel, ok := x.Fun.(*ast.SelectorExpr); ok && m.isWaitGroup(sel.X, map[types.Object]bool{}) && len(x.Args) == 1 {
 					it = &c07Item{add: x}
 				}
 			}
@@ -371,7 +371,7 @@ func c07P1(r *core.R) {
 			if !ok || !isMethod(callee(info, call), "sync.WaitGroup", "Done") {
 				return true
 			}
-			if sel, ok := call.Fun.(*ast.SelectorExpr); !ok || fieldOf(info, sel.X) != m.wgField {
+			if sel, ok := call.Fun.(*ast.SelectorExpr); !ok || !m.isWaitGroup(sel.X, map[types.Object]bool{}) {
 				return true
 			}
 			stmt, deferred := m.stmtOfCall(s, call)
@@ -459,6 +459,9 @@ type c07Scanner struct {
 	view                          *pbfPkgView
 	T                             *types.Named
 	errField, closedField, ctxFld *types.Var
+	// localVal, while a function is evaluated for one abstract input along its (then single) path, holds what the
+	// error-typed locals currently stand for (see c07TrackLocals)
+	localVal map[types.Object]string
 }
 
 func c07LoadScanner(p *core.Program, rel string) *c07Scanner {
@@ -774,7 +777,7 @@ func c07P2(r *core.R) {
 			for _, o2 := range byClass[op.class] {
 				if o2.kind == "recv" || o2.kind == "range" {
 					n++
-					if o2.kind != "range" {
+					if o2.kind != "range" && !m.recvDrives(o2) {
 						okRecv = false
 					}
 					if !o2.u.goroutineOnly() {
@@ -783,7 +786,7 @@ func c07P2(r *core.R) {
 				}
 			}
 			if okRecv && n > 0 {
-				r.OK(c, op.pos, "bare send on %s whose only receivers are `for range` loops of worker goroutines that outlive the sender (the sender closes the channel on exit)", op.class)
+				r.OK(c, op.pos, "bare send on %s whose only receivers are `for range` loops (or their explicit form `v, ok := <-ch; if !ok { return }`) of worker goroutines that outlive the sender (the sender closes the channel on exit)", op.class)
 			} else {
 				r.Bad(c, op.pos, "bare send on %s is not cancellable and its receivers are not unconditional range loops: it can block forever after Close/cancel", op.class)
 			}
